@@ -163,6 +163,9 @@ class Sample(object):
         # the requested rest times so that decay_time() does not depend on them.
         times = [0] + list(rest_times)
         for el, frac in self.formula.mass_fraction.items():
+            if core.ision(el):
+                # Activation does not depend on the charge state
+                el = el.element
             if core.isisotope(el):
                 A = activity(el, self.mass*frac, environment, exposure, times)
                 self._accumulate(A)
